@@ -307,6 +307,12 @@ def run(R):
         for bb_, t_ in pf.calls(name='map'):
             if 'Option' in (t_.get('fn') or '') and is_call(strip_refs(pf.origin(t_['args'][0])), name='take') and mentions_field(pf.origin(t_['args'][0]), 'trailers') and any('Frame<' in g_ for g_ in (t_.get('ga') or [])):
                 end_sites.append((bb_, True))
+        # .. or `trailers.take()?` in a helper returning the final item: the residual None, exactly when nothing is stored
+        for bb_, t_ in pf.calls(name='from_residual'):
+            a0_ = pf.origin(t_['args'][0]) if t_['args'] else None
+            if (t_.get('ga') or [''])[0].startswith(('std::option::Option<std::result::Result<', 'core::option::Option<core::result::Result<')) and 'Frame<' in t_['ga'][0] \
+                    and term_contains(a0_, lambda x: is_call(x, name='take')) and mentions_field(a0_, 'trailers'):
+                end_sites.append((bb_, True))
         for sb0, flush_or_end in end_sites:
             if True:
                 srcs = [sb0]
